@@ -232,13 +232,15 @@ Section IntKind.
 
   (* an ndarray of the field's own dtype is bound as it is: accepted iff the length is legal and the elements are in the range *)
   Theorem legal_same_dtype : forall fixed cap dt' l, dtype_eqb dt' dt = true ->
-    assign_array TGf PW false fixed cap false e (PArr dt' l) =
-    if len_legal fixed (length l) cap && forallb (elem_in_dsdl_range e) l then Ok (PArr dt l) else
-    Raise (match assign_array TGf PW false fixed cap false e (PArr dt' l) with Raise ex => ex | Ok _ => ValueError end).
+    (len_legal fixed (length l) cap && forallb (elem_in_dsdl_range e) l = true ->
+     assign_array TGf PW false fixed cap false e (PArr dt' l) = Ok (PArr dt l)) /\
+    (len_legal fixed (length l) cap && forallb (elem_in_dsdl_range e) l = false ->
+     exists ex, assign_array TGf PW false fixed cap false e (PArr dt' l) = Raise ex).
   Proof.
     intros fixed cap dt' l Hd. destruct (array_assign_exact fixed cap false e (PArr dt' l)) as [[A E]|[A [ex E]]];
-      unfold arr_accepts, arr_stored in *; cbn [strconv] in *; fold dt in A, E; rewrite Hd in *; rewrite E;
-      change (lenG fixed (length l) cap) with (len_legal fixed (length l) cap) in A; rewrite A; reflexivity.
+      unfold arr_accepts, arr_stored in *; cbn [strconv] in *; fold dt in A, E; rewrite Hd in *;
+      change (lenG fixed (length l) cap) with (len_legal fixed (length l) cap) in A; rewrite A, E; split; intros H;
+      try discriminate; eauto.
   Qed.
 End IntKind.
 
